@@ -383,6 +383,50 @@ fn pool() -> Vec<Params> {
     ]
 }
 
+/// skip / nth / step_by / count / last at every position against the stream `next()` yields
+fn positional(p: &Params, di: usize, acc: &mut Acc) -> Option<String> {
+    let dirty = dirty_buffers();
+    let all = run_real(p, &mut dirty[di].clone(), None);
+    fn mk<'a>(p: &Params, buf: &'a mut Vec<SliderEvent>) -> SliderEventsIter<'a> {
+        SliderEventsIter::new(p.start, p.span_dur, p.velocity, p.tick_dist, p.total, p.spans, buf)
+    }
+    let bits = |v: &[SliderEvent]| v.iter().map(|e| (e.kind as u8, e.span_idx, e.span_start_time.to_bits(), e.time.to_bits(), e.path_progress.to_bits())).collect::<Vec<_>>();
+    for k in 0..=all.len() + 1 {
+        acc.evals += 3;
+        acc.transitions += 3;
+        let mut b = dirty[di].clone();
+        let got: Vec<SliderEvent> = mk(p, &mut b).skip(k).collect();
+        if bits(&got) != bits(&all[k.min(all.len())..]) {
+            return Some(format!("skip({k}) yields {} events, the stream from event {k} has {}", got.len(), all.len().saturating_sub(k)));
+        }
+        let mut b = dirty[di].clone();
+        let mut it = mk(p, &mut b);
+        let kth = it.nth(k);
+        let rest: Vec<SliderEvent> = it.collect();
+        let want_rest = &all[(k + 1).min(all.len())..];
+        if bits(kth.as_slice()) != bits(all.get(k).map(std::slice::from_ref).unwrap_or(&[])) || bits(&rest) != bits(want_rest) {
+            return Some(format!("nth({k}) = {kth:?}, then {} events; the stream has {:?} there, then {}", rest.len(), all.get(k), want_rest.len()));
+        }
+        if k >= 1 {
+            let mut b = dirty[di].clone();
+            let got: Vec<SliderEvent> = mk(p, &mut b).step_by(k).collect();
+            let want: Vec<SliderEvent> = all.iter().step_by(k).cloned().collect();
+            if bits(&got) != bits(&want) {
+                return Some(format!("step_by({k}) yields {} events, expected {}", got.len(), want.len()));
+            }
+        }
+    }
+    let mut b = dirty[di].clone();
+    if mk(p, &mut b).count() != all.len() {
+        return Some("count() differs from the number of events next() yields".into());
+    }
+    let mut b = dirty[di].clone();
+    if bits(mk(p, &mut b).last().as_slice()) != bits(all.last().map(std::slice::from_ref).unwrap_or(&[])) {
+        return Some("last() differs from the last event next() yields".into());
+    }
+    None
+}
+
 pub fn replay(case: &Value) -> Vec<Violation> {
     let mut out = Vec::new();
     if case["kind"] == "history" {
@@ -395,6 +439,12 @@ pub fn replay(case: &Value) -> Vec<Violation> {
                 out.push(Violation::new(class, format!("step {i}: {summary}"), case.clone()));
                 break;
             }
+        }
+    } else if case["kind"] == "positional" {
+        let p = Params::from_json(&case["params"]);
+        let di = case["dirty"].as_u64().unwrap_or(0) as usize;
+        if let Some(msg) = positional(&p, di, &mut Acc::new()) {
+            out.push(Violation::new("positional-access", format!("{p:?}: {msg}"), case.clone()));
         }
     } else {
         let p = Params::from_json(&case["params"]);
@@ -453,6 +503,17 @@ pub fn run(tier: Tier) -> i32 {
     acc = acc.merge(g);
     acc.count("grid_points", total);
 
+    // positional consumption: skip / nth / step_by / last / count see the same stream as next()
+    let pos_pool = pool();
+    let pos = par_range(pos_pool.len() as u64 * dirty.len() as u64, |idx, acc| {
+        let p = pos_pool[(idx / dirty.len() as u64) as usize];
+        let di = (idx % dirty.len() as u64) as usize;
+        if let Some(msg) = positional(&p, di, acc) {
+            acc.violation(Violation::new("positional-access", format!("{p:?} dirty={di}: {msg}"), json!({"kind": "positional", "params": p.json(), "dirty": di})));
+        }
+    });
+    acc = acc.merge(pos);
+
     let mut e2acc = Acc::new();
     let depth: &[u16] = tier.pick(&[3], &[4]);
     let res = e2::run(
@@ -473,7 +534,8 @@ pub fn run(tier: Tier) -> i32 {
                reference (kinds, span indices, closed-form times/progress to 1e-9 relative, ticks at multiples of the tick \
                distance, min-distance cut-off, same placement on every span, repeat count). Non-trivial = streams with \
                ticks, distinct by (event shape, ratio, length). E2: BFS over tick-buffer contents, action = (parameter set, \
-               consume 0/1/2/4/all events then drop); every consumed prefix must equal the reference prefix."
+               consume 0/1/2/4/all events then drop); every consumed prefix must equal the reference prefix. Positional access (skip, nth, \
+               step_by, count, last at every position) over the E2 pool must see the stream that next() yields."
             .into(),
         bounds: json!({"grid": radices, "grid_points": total, "e2_pool": pool().len(), "e2_takes": TAKES.len(),
             "e2_completed_depth": res.completed_depth, "e2_per_depth": res.per_depth}),
